@@ -24,6 +24,7 @@ func init() {
 			{Name: "random-bytes@plain,checkptr", Quick: 3000, Thorough: 200000, Run: c10Random},
 			{Name: "repository-crashers@plain", Quick: 1, Thorough: 1, Run: c10Crashers, Serial: true},
 			{Name: "mustreadfrom@plain", Quick: 1500, Thorough: 60000, Run: c10MustReadFrom},
+			{Name: "pinned-known-finding@plain", Quick: 1, Thorough: 1, Run: c10PinnedKnown, Serial: true},
 		},
 	})
 }
@@ -871,6 +872,30 @@ func c10MustReadFrom(c *Ctx) {
 			c.Fail("MustReadFrom/return-values", "ReadFrom returned (%d,nil) but MustReadFrom returned (%d,%v)", n1, n2, e2)
 		} else if d := checkEq(dst, apiSet(ref)); d != "" {
 			c.Fail("MustReadFrom/content", "%s", d)
+		}
+	}
+}
+
+// c10PinnedKnown re-executes the concrete input of the known finding validated/bitmap-chunk-card-4096 on every
+// run (a frozen stream whose single type-1 chunk holds exactly 4096 values), so that the finding is re-observed
+// deterministically and a repair would be noticed (the KNOWN-FINDING line would say "not re-observed").
+func c10PinnedKnown(c *Ctx) {
+	fz := make([]byte, 8192+2+2+1+4)
+	for w := 0; w < 64; w++ {
+		binary.LittleEndian.PutUint64(fz[8*w:], ^uint64(0)) // values 0..4095
+	}
+	put16(fz, 8192, 7)      // key
+	put16(fz, 8194, 4096-1) // cardinality-1
+	fz[8196] = 1            // type code: bitmap
+	binary.LittleEndian.PutUint32(fz[8197:], uint32(frozenMagic|1<<15))
+	c.Step("pinned input: frozen stream with one bitmap chunk holding exactly 4096 values")
+	c.Distinct(sumBytes(fz))
+	outs, done := feedAll(c, fz, "pinned", false)
+	defer done()
+	for _, o := range outs {
+		if o.b != nil && o.name == "FrozenView" {
+			consistencyLevel(c, o, "pinned", true)
+			return
 		}
 	}
 }
